@@ -209,7 +209,8 @@ func (dts *DataTypeService) findMetadata(key []byte, dt dataType) (*metadata, er
 		if len(metaBuf) > 1 {
 			expire, _ = binary.Varint(metaBuf[1:])
 		}
-		if expire != 0 && expire <= time.Now().UnixNano() {
+		// 与 Get 的判断保持一致: 仅正的过期时间有效, 超长 TTL 溢出得到的非正值视为永不过期
+		if expire > 0 && expire <= time.Now().UnixNano() {
 			exist = false // 过期仍视为不存在
 		} else if len(metaBuf) == 0 || metaBuf[0] != dt {
 			return nil, ErrWrongTypeOperation
